@@ -282,6 +282,8 @@ PROPS["C12"] = dict(
     native=[dict(files=["contracts/C12/c12_native.rs"],
                  harnesses={"c12_native_keep_better_at_index": dict(anchor="KeepBetterAtIndex::replace",
                             bound="BOUNDED STAND-IN, native exhaustive enumeration: equal sizes 0..2 over 5 objective values (incl. ties, +inf) + 4 unequal-size pairs"),
+                            "c12_native_mu_plus_lambda": dict(anchor="MuPlusLambda::replace (real std sort)",
+                            bound="BOUNDED STAND-IN, native exhaustive enumeration: 0..3 parents x 0..3 offspring over 5 objective values (ties, +inf) x mu 0..total+1"),
                             "c12_native_random_replacement": dict(anchor="RandomReplacement::replace (real rand shuffle)",
                             bound="BOUNDED STAND-IN, native run: 0..3 parents x 0..3 offspring x mu 0..7 x 16 seeds")})],
     min_obligations={"quick": 50, "thorough": 50},
